@@ -7,6 +7,9 @@ namespace Swim.Lifecycle
 
 inductive Stage where
   | joined | left | leftReaped | shutdown | leftShutdown
+  /-- created, but the node's own configuration refused its own record (CIDRsAllowed without its
+  address): it is not a member of itself -/
+  | denied | deniedShutdown
   deriving DecidableEq, Repr
 
 inductive Call where
@@ -27,6 +30,9 @@ after Leave returns an error instead of waiting for a broadcast that is never qu
 def outcome : Stage → Call → Outcome
   | _, .members => .ok
   | _, .numMembers => .ok
+  -- known finding C20-selfdenied-localnode: LocalNode dereferences the missing own record
+  | .denied, .localNode => .PANIC
+  | .deniedShutdown, .localNode => .PANIC
   | _, .localNode => .ok
   | _, .healthScore => .ok
   | _, .protocolVersion => .ok
@@ -41,6 +47,8 @@ def outcome : Stage → Call → Outcome
   | .leftReaped, .leave => .ok
   | .shutdown, .leave => .documentedPanic
   | .leftShutdown, .leave => .documentedPanic
+  | .denied, .leave => .ok            -- "Leave but we're not in the node map"
+  | .deniedShutdown, .leave => .documentedPanic
   | _, .shutdownC => .ok
 
 def next : Stage → Call → Stage
@@ -48,6 +56,7 @@ def next : Stage → Call → Stage
   | .joined, .shutdownC => .shutdown
   | .left, .shutdownC => .leftShutdown
   | .leftReaped, .shutdownC => .leftShutdown
+  | .denied, .shutdownC => .deniedShutdown
   | s, _ => s
 
 /-- the reaper: a departed node's own record would age out; with the fix it stays -/
@@ -55,5 +64,10 @@ def age : Stage → Stage
   | .left => .leftReaped
   | s => s
 
+/-- the node is a member of itself (its own record was admitted at creation) -/
+def Stage.selfListed : Stage → Bool
+  | .denied => false
+  | .deniedShutdown => false
+  | _ => true
 
 end Swim.Lifecycle
